@@ -92,7 +92,7 @@ func (fc *ProtoForkChoice) UpdateJustified(ctx context.Context, trigger Root, ju
 
 	prevFinalized := fc.finalized
 
-	if err := fc.updateJustified(justified, finalized, justifiedStateBalances); err != nil {
+	if err := fc.updateJustified(finalized, justified, justifiedStateBalances); err != nil {
 		return err
 	}
 
